@@ -26,6 +26,13 @@ Theorem C04_fragment_roundtrip :
   forall i : instr, wf_instr i = true -> p_program Repaired (print_instr i) = Ok [i] [].
 Proof. exact single_rt. Qed.
 
+(** ... and so does every well-formed block definition (DEFCAL, DEFCAL MEASURE, DEFCIRCUIT with a
+    non-empty body of fragment instructions, DEFFRAME, DEFWAVEFORM), as [Instruction::to_quil]
+    prints it. *)
+Theorem C04_item_roundtrip :
+  forall it : item, wf_item it = true -> p_items Repaired (print_item it) = Ok [it] [].
+Proof. exact single_item_rt. Qed.
+
 (** CALL built through the API (immediates are arbitrary complex numbers, printed by
     [format_complex]): outside the open findings [call-immediate-sign] and
     [call-immediate-then-i] the printed tokens parse back to the call. *)
@@ -67,6 +74,20 @@ Theorem C04_checker_sound :
     r = qres_of (to_quil_model n) /\ dbg = true /\
     (has_placeholder n = false -> rp = Some true).
 Proof. exact ph_code_sound. Qed.
+
+(** The model comparison attached to a placeholder-free, representable tree: code 0 means the
+    tree is well-formed, the serializer's tokens are the model's print of it, they parse back to
+    exactly the tree, and the real re-parse is the same tree. *)
+Theorem C04_fragment_checker_sound :
+  forall a t j, frag_code (a, t, j) = 0%N ->
+    wf_item a = true /\ t = print_item a /\ p_items Repaired t = Ok [a] [] /\
+    exists j', j = Some j' /\ print_item j' = print_item a.
+Proof. exact frag_code_sound. Qed.
+
+Theorem C04_extended_checker_sound :
+  forall c f, phx_code (c, f) = 0%N ->
+    ph_code c = 0%N /\ match f with Some fr => frag_code fr = 0%N | None => True end.
+Proof. exact phx_code_sound. Qed.
 
 (** Non-vacuity: a DEFCAL whose body holds a label placeholder before a qubit placeholder. *)
 Example C04_nonvacuous :
